@@ -409,6 +409,43 @@ Definition checkout1 (g : cfg) (c : cache) (cur : option fnode) (o : oid) : resu
        | FOk x => mk_result (ODone (negb (g_relink g))) (put1 x) c (rec1 g x)
        end.
 
+(* ---------------------------------------------------------------- falsy targets: "remove this output" *)
+(* checkout(path, fs, None, ...) or an EMPTY Tree (falsy: len 0): every key of the old tree is a DELETE
+   and so is ROOT, whose in_cache flag is the cache lookup of the old tree's .dir object ([ric], an
+   oracle argument: the tree digest is not modelled).  _remove(ROOT) removes the directory with
+   whatever is still below it.  [ds] is the order in which the deletion loop handles the entries;
+   since /repo 38c4abf the loop is `sorted(diff.deleted, key=lambda c: c.old.key == ROOT)`, i.e. ROOT
+   last - the theorems assume exactly that ([root_last]) and are refuted without it.
+   After the loop: `failed = [path]` (no object to create), so CheckoutError([path]) - or, with a
+   State, _save_link's stat of the removed directory raises FileNotFoundError first. *)
+Inductive dkey := DRoot | DKey (k : key).
+Fixpoint run_rm (g : cfg) (c : cache) (w0 : ws) (ric : bool) (ds : list dkey) (w : ws) : ws * option key :=
+  match ds with
+  | [] => (w, None)
+  | DKey k :: r =>
+      let ch := mk_change c w0 [] k in
+      if truthy_oid (c_old ch) then
+        match del_step g ch (kassoc k w) with
+        | None => (w, Some k)
+        | Some x => run_rm g c w0 ric r (ws_put k x w)
+        end
+      else run_rm g c w0 ric r w
+  | DRoot :: r =>
+      (* the directory exists: there is an old tree *)
+      match guard_step g root_key ric (Some (mk_fnode [] false None false 0 0 0)) with
+      | None => (w, Some root_key)
+      | Some _ => run_rm g c w0 ric r []          (* the directory and everything still below it *)
+      end
+  end.
+Definition checkout_rm (g : cfg) (c : cache) (w : ws) (ric : bool) (ds : list dkey) : result :=
+  if stageable w && negb (is_nil w) then
+    if is_nil (g_links g) then mk_result OLink w c None
+    else match run_rm g c w ric ds w with
+         | (w1, Some k) => mk_result (OPrompt k) w1 c None
+         | (w1, None) => mk_result (if g_state g then ONotFound root_key else OFailed [root_key]) w1 c None
+         end
+  else mk_result (OFailed [root_key]) w c (if g_relink g && g_state g then Some [] else None).
+
 End WithH.
 
 Fixpoint join_key (k : key) : list N :=
@@ -584,6 +621,14 @@ Definition run_in1 (i : co_in) : result :=
                     (i_types i) (i_links i) (i_state i) (i_now i))
             (i_cache i) (kassoc root_key (i_ws i))
             (match kassoc root_key (i_target i) with Some o => o | None => [] end).
+
+Definition run_in_rm (x : co_in * bool * list dkey) : result :=
+  let '(i, ric, ds) := x in
+  checkout_rm (H_tab (i_htab i))
+              (mk_cfg (i_force i) (i_relink i)
+                      (option_map (fun yes k => kmem k yes) (i_prompt i))
+                      (i_types i) (i_links i) (i_state i) (i_now i))
+              (i_cache i) (i_ws i) ric ds.
 
 (* decider tables for the enumeration against the real _remove / _checkout_file *)
 Definition enc_rm_act (a : rm_act) : val := VN (match a with RmSkip => 0 | RmRaise => 1 | RmRemove => 2 end).
